@@ -155,6 +155,23 @@ structure TxOk (tx : Tx) : Prop where
   data : tx.data.length < 2 ^ 64
   sigs : ∀ c ∈ tx.sigs, c.length < 2 ^ 64
 
+
+/-- `stdcode::serialize(header)`, the preimage of the header hash: network byte, previous (32), height, three roots (32 each),
+    fee pool, fee multiplier, DOSC speed, two roots -/
+def encodeHeader (h : Header) : Bytes :=
+  [UInt8.ofNat h.network.toNat] ++ h.previous ++ putVarint h.height ++ h.historyHash ++ h.coinsHash ++ h.transactionsHash
+    ++ putVarint h.feePool ++ putVarint h.feeMultiplier ++ putVarint h.doscSpeed ++ h.poolsHash ++ h.stakesHash
+
+/-- a header as the Rust type can hold it -/
+structure HeaderOk (h : Header) : Prop where
+  hashes : h.previous.length = 32 ∧ h.historyHash.length = 32 ∧ h.coinsHash.length = 32 ∧ h.transactionsHash.length = 32 ∧
+    h.poolsHash.length = 32 ∧ h.stakesHash.length = 32
+  height : h.height < 2 ^ 64
+  amounts : h.feePool < 2 ^ 128 ∧ h.feeMultiplier < 2 ^ 128 ∧ h.doscSpeed < 2 ^ 128
+
+/-- `stdcode::serialize(coin_id)`, the preimage of a coin's key in the coin tree and part of the MelPoW puzzle -/
+def encodeCoinIDKey (c : CoinID) : Bytes := encodeCoinID c
+
 /-- what the harness supplies next to a transaction agrees with what the model computes from its content -/
 def suppliedAgrees (tx : Tx) : Bool :=
   tx.rawLen == txLen tx && tx.stakeDoc == decodeStakeDoc tx.data &&
